@@ -30,11 +30,11 @@ def lemma_resolution(tier):
     rel = "tradingenv/contracts.py"
     lc = front.strip(front.find(rel, "FutureChain.lead_contract"))
     src = ast.unparse(lc)
-    out.append(lemma.check("C11::lemma::lead_contract_indexes_the_resolved_position",
+    out.append(lemma.binds("C11::lemma::lead_contract_indexes_the_resolved_position",
                            "self._lead_contract_idx(now)" in src and "return self.contracts[idx]" in src and "idx += month" in src,
                            "FutureChain.lead_contract returns contracts[_lead_contract_idx(now) + month]"))
     sh = front.strip(front.find(rel, "FutureChain.static_hashing"))
-    out.append(lemma.check("C11::lemma::chain_hashes_to_lead", [ast.dump(x) for x in sh.body] == [ast.dump(ast.parse("return self.lead_contract()").body[0])],
+    out.append(lemma.binds("C11::lemma::chain_hashes_to_lead", [ast.dump(x) for x in sh.body] == [ast.dump(ast.parse("return self.lead_contract()").body[0])],
                            "static_hashing (used by allocations and the exchange) is lead_contract() at the process clock"))
     return out
 
